@@ -6,3 +6,4 @@ open Photon.Ser
 #print axioms claim_fails_when_short
 #print axioms C12_roundtrip
 #print axioms C12_anchor_inside
+#print axioms C12_checksum_blind_witness
